@@ -85,8 +85,12 @@ void STUB_secp256k1_fe_impl_mul(secp256k1_fe *r, const secp256k1_fe *a, const se
 void STUB_secp256k1_fe_impl_sqr(secp256k1_fe *r, const secp256k1_fe *a) { if (verif_fe_is_one(a)) *r = *a; else *r = verif_fe_m1(); }
 void STUB_secp256k1_fe_impl_inv(secp256k1_fe *r, const secp256k1_fe *a) { if (verif_fe_is_one(a)) *r = *a; else *r = verif_fe_m1(); }
 void STUB_secp256k1_fe_impl_inv_var(secp256k1_fe *r, const secp256k1_fe *a) { if (verif_fe_is_one(a)) *r = *a; else *r = verif_fe_m1(); }
+#ifndef W_OWN_SQRT
 int STUB_secp256k1_fe_sqrt(secp256k1_fe * SECP256K1_RESTRICT r, const secp256k1_fe * SECP256K1_RESTRICT a) { (void)a; *r = verif_fe_m1(); return nondet_int() & 1; }
+#endif
+#ifndef W_OWN_ISSQUARE
 int STUB_secp256k1_fe_impl_is_square_var(const secp256k1_fe *x) { (void)x; return nondet_int() & 1; }
+#endif
 #endif
 
 #ifdef W_SCALAR_UF
